@@ -68,6 +68,52 @@ def enclosing_tests(fn, target) -> List[Tuple[ast.AST, bool]]:
     return out
 
 
+def _leaves(body) -> bool:
+    """the block cannot fall through to the statement after it"""
+    if not body:
+        return False
+    last = body[-1]
+    if isinstance(last, (ast.Return, ast.Raise, ast.Continue, ast.Break)):
+        return True
+    if isinstance(last, ast.If) and last.orelse:
+        return _leaves(last.body) and _leaves(last.orelse)
+    return False
+
+
+def _literal(test, pol) -> Tuple[ast.AST, bool]:
+    while isinstance(test, ast.UnaryOp) and isinstance(test.op, ast.Not):
+        test, pol = test.operand, not pol
+    return test, pol
+
+
+def path_conditions(fn, target) -> List[Tuple[ast.AST, bool]]:
+    """(test, polarity) facts that hold whenever `target` is reached, whatever style the branching is written in:
+    the tests of the enclosing if/while statements, and for every earlier sibling `if c: <leaves>` (guard clause) the fact
+    `not c` (likewise `if c: ... else: <leaves>` gives `c`).  `not` is folded into the polarity."""
+    p = path_to(fn, target)
+    out: List[Tuple[ast.AST, bool]] = []
+    if p is None:
+        return out
+    for k, (block, idx) in enumerate(p):
+        for st in block[:idx]:
+            if isinstance(st, ast.If):
+                if _leaves(st.body) and not _leaves(st.orelse):
+                    out.append(_literal(st.test, False))
+                elif st.orelse and _leaves(st.orelse) and not _leaves(st.body):
+                    out.append(_literal(st.test, True))
+            elif isinstance(st, ast.Assert):
+                out.append(_literal(st.test, True))
+        if k + 1 < len(p):
+            st = block[idx]
+            nxt = p[k + 1][0]
+            if isinstance(st, (ast.If, ast.While)):
+                if nxt is st.body:
+                    out.append(_literal(st.test, True))
+                elif nxt is st.orelse:
+                    out.append(_literal(st.test, False))
+    return out
+
+
 def always_raises(body) -> bool:
     if not body:
         return False
